@@ -53,12 +53,14 @@ class Abstract(SpawnBase):
         self.clock, self.kinds, self.durs = clock, list(kinds), list(durs)
         self.calls = 0
         self.timeouts = []
+        self.started = []
 
     def read_nonblocking(self, size=1, timeout=None):
         k = self.kinds.pop(0) if self.kinds else 1
         d = self.durs.pop(0) if self.durs else 0
         self.calls += 1
         self.timeouts.append(timeout)
+        self.started.append(self.clock.now)
         lim = None if timeout is None else (timeout if timeout > 0 else 0)
         if k == 1:
             if lim is None:
@@ -78,10 +80,11 @@ class Abstract(SpawnBase):
             tags={2: 'TIMEOUT at the deadline', 3: 'EOF', 4: 'pending match', 5: 'timeout None ends by EOF'},
             timeout=200, split=('tmode',),
             note='A: overall deadline of expect_loop; T, start time and all read durations are unbounded integers')
-def A_deadline(t0, T, tmode, k0, k1, k2, d0, d1, d2, dar, pend):
+def A_deadline(t0, T, tmode, k0, k1, k2, d0, d1, d2, dar, pend, k3=None, d3=0, k4=None, d4=0):
     clk = Clock(t0)
     tmode = pick(tmode, 0, 3)
-    sp = Abstract(clk, [k0, k1, k2], [d0, d1, d2], timeout=T)
+    kinds = [k0, k1, k2] + ([k3] if k3 is not None else []) + ([k4] if k4 is not None else [])
+    sp = Abstract(clk, kinds, [d0, d1, d2, d3, d4][:len(kinds)], timeout=T)
     sp.delayafterread = dar if dar else None
     timeout = [None, 0, T, -1][tmode]
     eff = [None, 0, T, T][tmode]
@@ -104,11 +107,22 @@ def A_deadline(t0, T, tmode, k0, k1, k2, d0, d1, d2, dar, pend):
         return 5 if i == 1 else 0
     if el > eff + dar * sp.calls:
         return 0                           # overall bound exceeded
+    for at in sp.started:
+        if at > t0 + eff:
+            return 0                       # a read was started although the deadline had already passed
     if i == 2:
         if el < eff:
             return 0                       # TIMEOUT before T elapsed
         return 2
     return 3 if i == 1 else 0
+
+
+@obligation(params=dict(t0=Int(0), T=Int(0), tmode=Int(0, 3), k0=Int(0, 2), k1=Int(0, 2), k2=Int(0, 2), k3=Int(0, 2), k4=Int(0, 2),
+                        d0=Int(0), d1=Int(0), d2=Int(0), d3=Int(0), d4=Int(0), dar=Int(0, 5)),
+            tags={2: 'TIMEOUT at the deadline', 3: 'EOF', 5: 'timeout None ends by EOF'},
+            timeout=2000, split=('tmode', 'k0'), tiers=('thorough',), note='A with five reads per call')
+def A_deadline5(t0, T, tmode, k0, k1, k2, k3, k4, d0, d1, d2, d3, d4, dar):
+    return A_deadline(t0, T, tmode, k0, k1, k2, d0, d1, d2, dar, False, k3, d3, k4, d4)
 
 
 # ------------------------------------------------------------------ B
